@@ -149,6 +149,9 @@ struct Gen<'a> {
     rng: &'a mut StdRng,
     env: Vec<(u32, Ty)>,
     next_var: u32,
+    /// composite string expressions generated so far: reused now and then, so that one evaluation creates
+    /// the same new string more than once
+    memo: Vec<Vec<Op>>,
 }
 
 impl<'a> Gen<'a> {
@@ -244,6 +247,12 @@ impl<'a> Gen<'a> {
     fn gen(&mut self, ty: Ty, d: u32, out: &mut Vec<Op>) {
         // deliberate type error now and then
         let ty = if self.rng.gen_range(0..40) == 0 { *pick(self.rng, &TYS) } else { ty };
+        let start = out.len();
+        if ty == Ty::Str && !self.memo.is_empty() && self.rng.gen_range(0..3) == 0 {
+            let k = self.rng.gen_range(0..self.memo.len());
+            out.extend(self.memo[k].iter().cloned());
+            return;
+        }
         // bound variable of that type
         let cands: Vec<u32> = self.env.iter().filter(|(_, t)| *t == ty).map(|(v, _)| *v).collect();
         if !cands.is_empty() && self.rng.gen_range(0..3) == 0 {
@@ -285,11 +294,15 @@ impl<'a> Gen<'a> {
                 }
             },
             Ty::Str => match self.rng.gen_range(0..3) {
-                0 => self.bin(out, Ty::Str, Ty::Str, Binary::Add, d),
+                0 => {
+                    self.bin(out, Ty::Str, Ty::Str, Binary::Add, d);
+                    self.memo.push(out[start..].to_vec());
+                }
                 1 => {
                     let t = *pick(self.rng, &TYS);
                     self.gen(t, d, out);
                     out.push(Op::Unary(Unary::TypeOf));
+                    self.memo.push(out[start..].to_vec());
                 }
                 _ => {
                     let t = self.lit(Ty::Str, 0);
@@ -477,6 +490,22 @@ pub fn run(opts: &Opts) {
         }
     }
 
+    // a unary operator applied to a closure (never well formed: the stack must be refused), before an operator
+    // that would accept the closure
+    let some_vs: Vec<Term> = vs.iter().step_by((vs.len() / 8).max(1)).cloned().collect();
+    for u in [Unary::Negate, Unary::Parens, Unary::Length, Unary::TypeOf, Unary::Ffi(1), Unary::Ffi(99999)].iter() {
+        for l in some_vs.iter().chain([Term::Bool(true), Term::Bool(false)].iter()) {
+            for (params, body) in bodies.iter() {
+                for b in [Binary::LazyAnd, Binary::LazyOr, Binary::All, Binary::Any, Binary::Equal].iter() {
+                    let ops = vec![Op::Value(l.clone()), Op::Closure(params.clone(), body.clone()), Op::Unary(u.clone()), Op::Binary(b.clone())];
+                    emit(&mut sink, make_case(&symbols, &vals, &ops), "tablecloun");
+                }
+                let ops = vec![Op::Closure(params.clone(), body.clone()), Op::Unary(u.clone())];
+                emit(&mut sink, make_case(&symbols, &vals, &ops), "tablecloun");
+            }
+        }
+    }
+
     // random typed expressions and malformed sequences
     let n = if opts.n > 0 { opts.n } else if opts.thorough { 200_000 } else { 6_000 };
     for i in 0..n {
@@ -485,7 +514,7 @@ pub fn run(opts: &Opts) {
         let mut env = vec![];
         for k in 0..rng.gen_range(0..4u32) {
             let ty = *pick(&mut rng, &TYS);
-            let mut g = Gen { rng: &mut rng, env: vec![], next_var: 0 };
+            let mut g = Gen { rng: &mut rng, env: vec![], next_var: 0, memo: vec![] };
             let v = g.lit(ty, 1);
             vals.insert(2000 + k, v);
             env.push((2000 + k, ty));
@@ -497,7 +526,7 @@ pub fn run(opts: &Opts) {
         } else {
             let depth = rng.gen_range(1..6);
             let mut ops = vec![];
-            let mut g = Gen { rng: &mut rng, env, next_var: 3000 };
+            let mut g = Gen { rng: &mut rng, env, next_var: 3000, memo: vec![] };
             let ty = if g.rng.gen_range(0..4) == 0 { *pick(g.rng, &TYS) } else { Ty::Bool };
             g.gen(ty, depth, &mut ops);
             emit(&mut sink, make_case(&symbols, &vals, &ops), "typed");
